@@ -215,6 +215,11 @@ func c18Programs() []Program {
 			Prfs: [][]string{nil, {"link", "dup"}}[i%2]}
 		ps = append(ps, Program{Kind: "receipt", Rcpt: &s})
 	}
+	// tokens issued through delegation.Delegate / invocation.Invoke that EMBED their proofs (archives hold
+	// several tokens; their order is part of the stored bytes)
+	for _, k := range []string{"chain3", "mixed", "twoproofs", "rsa-chain"} {
+		ps = append(ps, Program{Kind: "nested", Key: k})
+	}
 	// time bounds at and below zero, and beyond 2^31 / 2^53
 	for i, tb := range [][2]int{{-5, -7}, {0, -1}, {1 << 31, -(1 << 40)}, {1<<53 + 1, 1 << 31}, {1<<62 + 3, 0}, {-1, 1}} {
 		var s USpec
@@ -436,6 +441,55 @@ func runProgram(p Program) (Artifacts, error) {
 		}
 		out["message"] = m.Root().Link().String()
 		out["message-root"] = hex.EncodeToString(m.Root().Bytes())
+	case "nested":
+		a, b, c, svc := ucan.Signer(edPool[1]), ucan.Signer(edPool[2]), ucan.Signer(edPool[3]), edPool[0]
+		if p.Key == "rsa-chain" {
+			a = rsaPool[0]
+		}
+		res := a.DID().String()
+		mk := func(iss ucan.Signer, aud ucan.Principal, nonce string, prf ...delegation.Proof) (delegation.Delegation, error) {
+			return delegation.Delegate(iss, aud, []ucan.Capability[NbMap]{ucan.NewCapability("store/add", res, NbMap{F: map[string]any{}})},
+				delegation.WithExpiration(c18Now+50000), delegation.WithNonce(nonce), delegation.WithProof(prf...))
+		}
+		d1, err := mk(a, b, "d1")
+		if err != nil {
+			return nil, err
+		}
+		d1b, err := mk(a, b, "d1b")
+		if err != nil {
+			return nil, err
+		}
+		var d2 delegation.Delegation
+		switch p.Key {
+		case "mixed":
+			d2, err = mk(b, c, "d2", delegation.FromLink(d1b.Link()), delegation.FromDelegation(d1))
+		case "twoproofs":
+			d2, err = mk(b, c, "d2", delegation.FromDelegation(d1), delegation.FromDelegation(d1b))
+		default:
+			d2, err = mk(b, c, "d2", delegation.FromDelegation(d1))
+		}
+		if err != nil {
+			return nil, err
+		}
+		inv, err := invocation.Invoke(c, svc, ucan.NewCapability("store/add", res, NbMap{F: map[string]any{}}),
+			delegation.WithExpiration(c18Now+60000), delegation.WithNonce("inv"), delegation.WithProof(delegation.FromDelegation(d2)))
+		if err != nil {
+			return nil, err
+		}
+		for name, d := range map[string]delegation.Delegation{"d1": d1, "d2": d2, "inv": inv} {
+			out["link-"+name] = d.Link().String()
+			ab, _ := io.ReadAll(d.Archive())
+			out["archive-"+name] = hex.EncodeToString(ab)
+			f, _ := delegation.Format(d)
+			out["format-"+name] = f
+		}
+		msg, err := message.Build([]invocation.Invocation{inv}, nil)
+		if err != nil {
+			return nil, err
+		}
+		req, _ := request.Encode(msg)
+		rb, _ := io.ReadAll(req.Body())
+		out["request"] = hex.EncodeToString(rb)
 	case "srvrcpt", "failure":
 		svc, alice := edPool[0], edPool[20]
 		caps := []ucan.Capability[NbMap]{ucan.NewCapability("test/fail", alice.DID().String(), NbMap{F: map[string]any{}})}
@@ -558,6 +612,17 @@ func readRecorded(p Program, rec Artifacts) []string {
 				chk(len(msg.Invocations()) == 1 && msg.Invocations()[0].String() == rec[fmt.Sprintf("link%d", p.World.Inv)], "recorded request lists another invocation")
 			}
 			chk(rec["content-type"] == "application/vnd.ipld.car", "media type")
+		}
+	case "nested":
+		for _, name := range []string{"d1", "d2", "inv"} {
+			d, err := delegation.Extract(unhex("archive-" + name))
+			chk(err == nil && d.Link().String() == rec["link-"+name], "recorded archive of "+name+" no longer extracts to its link")
+			if err == nil {
+				ab, aerr := io.ReadAll(d.Archive())
+				chk(aerr == nil && bytes.Equal(ab, unhex("archive-"+name)), "a loaded archive ("+name+") is written back with other bytes")
+			}
+			d2, err := delegation.Parse(rec["format-"+name])
+			chk(err == nil && d2.Link().String() == rec["link-"+name], "recorded delegation string of "+name+" no longer parses to its link")
 		}
 	case "receipt", "srvrcpt", "failure":
 		rootN, err := decodeAny(unhex("root"))
